@@ -922,12 +922,104 @@ def work_shell(arg):
             got = run(f'.run {name}')
             recs.append({'name': name, 'qdate': qd, 'text': text, 'swf': swf, 'own': own, 'got': got})
         # expected outputs are produced after the model has spoken (second pass): keep the runner handy
+        # ... typed into a FRESH shell that never executed `.run` (a shell session must not remember the
+        # default CLOSE date of an earlier `.run`; see also work_shell_session)
+        with contextlib.redirect_stderr(err), contextlib.redirect_stdout(out):
+            sh = shell.BQLShell(path, out)
         for r in recs:
             r['with_close'] = run(r['text'].replace('{close}', f' CLOSE ON {r["qdate"]}'))
             r['without'] = run(r['text'].replace('{close}', ''))
     finally:
         os.unlink(path)
     return recs
+
+
+SESSION_TYPED = [
+    'SELECT date, flag, account, position FROM year >= 2019',
+    'SELECT date, flag, account, position FROM OPEN ON 2020-01-01',
+    'SELECT date, flag, account, position FROM CLEAR',
+    'SELECT account, sum(position) FROM OPEN ON 2019-12-31 CLEAR GROUP BY account ORDER BY account',
+    'SELECT date, account, position',
+    'BALANCES FROM OPEN ON 2020-01-01',
+    'JOURNAL FROM year >= 2019',
+    "JOURNAL 'Assets' FROM OPEN ON 2020-01-01 CLEAR",
+    'SELECT date, flag, account, position FROM OPEN ON 2020-01-01 CLOSE ON 2020-07-01',
+    'SELECT date, flag, account, position FROM OPEN ON 2020-01-01 CLOSE',
+]
+
+
+def work_shell_session(arg):
+    """Shell SESSIONS: `.run NAME` / `.run *` followed by typed statements in the same shell. Every typed
+    statement must print what the same statement gives through the API on a fresh connection (rendered with
+    the shell's own renderer): nothing of the `.run` (its default CLOSE date) may stick to the session."""
+    idx, ledger, seed = arg
+    import contextlib
+    import random
+    import beanquery
+    from beanquery import shell
+    rng = random.Random(seed)
+    tds = sorted({t['date'] for t in ledger['txns']})
+    # query directives dated inside the span, so that transactions follow them
+    qdates = sorted({tds[len(tds) // 3], tds[len(tds) // 2], tds[0]})
+    named = []
+    for i, qd in enumerate(qdates):
+        named.append((qd, f's{i}', rng.choice(SESSION_TYPED[:4])))
+    named.append((qdates[0], 'sb', 'BALANCES FROM OPEN ON 2019-12-31'))
+    path = write_ledger(ledger, f'n{os.getpid()}_{idx}', named)
+    out_v = []
+    stats = {'typed': 0, 'discriminating': 0, 'sessions': 0}
+    try:
+        api = beanquery.connect('beancount:' + path)
+        settings = shell.Settings(format='text', numberify=False)
+
+        def api_text(stmt):
+            conn = api
+            curs = conn.execute(stmt)
+            o = io.StringIO()
+            shell.FORMATS['text'](curs.description, curs.fetchall(), o, dcontext=conn.options['dcontext'], **settings.todict())
+            return o.getvalue()
+        expected = {t: api_text(t) for t in SESSION_TYPED}
+        for first in [f'.run {n}' for _, n, _ in named] + ['.run *', '.run s0\n.run *']:
+            out = io.StringIO()
+            err = io.StringIO()
+            with contextlib.redirect_stderr(err), contextlib.redirect_stdout(out):
+                sh = shell.BQLShell(path, out)
+                for cmd in first.split('\n'):
+                    try:
+                        sh.onecmd(cmd)
+                    except Exception as e:  # noqa: BLE001
+                        out.write(f'EXC {type(e).__name__}: {e}')
+            stats['sessions'] += 1
+            # the date a stale default would be: that of the (last) query run
+            stale = named[-1][0] if first.endswith('*') else next(d for d, n, _ in named if first == f'.run {n}')
+            for stmt in rng.sample(SESSION_TYPED, 6):
+                out.seek(0)
+                out.truncate(0)
+                with contextlib.redirect_stderr(err), contextlib.redirect_stdout(out):
+                    try:
+                        sh.onecmd(stmt)
+                    except Exception as e:  # noqa: BLE001
+                        out.write(f'EXC {type(e).__name__}: {e}')
+                got = out.getvalue()
+                stats['typed'] += 1
+                if ' CLOSE' not in stmt and ' FROM ' in stmt and stmt.startswith('SELECT'):
+                    try:
+                        k = stmt.index(' GROUP BY') if ' GROUP BY' in stmt else len(stmt)
+                        with_stale = stmt[:k].replace(' CLEAR', '') + f' CLOSE ON {stale}' + (' CLEAR' if ' CLEAR' in stmt[:k] else '') + stmt[k:]
+                        if api_text(with_stale) != expected[stmt]:
+                            stats['discriminating'] += 1
+                    except Exception:  # noqa: BLE001
+                        pass
+                if got != expected[stmt]:
+                    out_v.append({'law': 'shell-session', 'stmt': f'{first!r} then {stmt!r}',
+                                  'msg': f'after {first!r} the typed statement prints {len(got.splitlines())} lines; the same '
+                                         f'statement through the API on a fresh connection renders {len(expected[stmt].splitlines())} '
+                                         f'lines (first difference: '
+                                         f'{next(((a, b) for a, b in zip(got.splitlines() + [None], expected[stmt].splitlines() + [None]) if a != b), None)})',
+                                  'clause': None})
+    finally:
+        os.unlink(path)
+    return out_v, stats
 
 
 def shell_model(recs):
@@ -1050,6 +1142,15 @@ def run(tier, rng):
         n_shell += len(recs)
         n_shell_disc += sum(1 for r in recs if r['discriminating'])
 
+    sess_ledgers = [ledgers[0]] + [l for l in ledgers[2:] if len({t['date'] for t in l['txns']}) >= 4][: (3 if tier == 'quick' else 16)]
+    sess = _pmap_small(work_shell_session, [(i, l, rng.randrange(1 << 30)) for i, l in enumerate(sess_ledgers)])
+    sess_stats = {'typed': 0, 'discriminating': 0, 'sessions': 0}
+    for (vs, st), l in zip(sess, sess_ledgers):
+        for v in vs:
+            raw.append((v, l))
+        for k in sess_stats:
+            sess_stats[k] += st[k]
+
     violations = []
     seen = set()
     for v, ledger in raw:
@@ -1091,11 +1192,13 @@ def run(tier, rng):
     nontrivial = sum(1 for r in results for c in r['cases']
                      if c['impl'][0] == 'ok' and any(t[1] in (83, 84, 67) for t in c['impl'][1]))
     cov = {
-        'evaluations': n_stmts + n_shell * 3,
+        'evaluations': n_stmts + n_shell * 3 + sess_stats['typed'],
         'distinct_nontrivial': nontrivial,
         'clause_combinations_compared_with_model': n_cases,
         'ledgers': len(results),
         'ledgers_with_load_errors': sum(1 for r in results if r.get('load_errors')),
+        'shell_sessions': sess_stats['sessions'], 'shell_session_typed_statements': sess_stats['typed'],
+        'shell_session_typed_statements_where_a_stale_close_would_change_output': sess_stats['discriminating'],
         'shell_run_queries': n_shell, 'shell_run_queries_where_default_close_changes_output': n_shell_disc,
         'rule': 'generated ledger files (0-22 transactions on colliding dates around year ends: transfers, income/expense, splits, '
                 'lots bought at cost with and without labels, partial sales of lots at a price with gains, currency '
@@ -1105,7 +1208,10 @@ def run(tier, rng):
                 'day after, directive end) incl. CLOSE before OPEN; per combination the posting rows are checked against the '
                 'conservation laws (independent fold over the original entries) and compared with the Coq model; on a sample: '
                 '2 FROM filters, aggregated SELECT, BALANCES [AT cost], JOURNAL, PRINT [filter]; nested statements `<outer FROM> WHERE account [NOT] IN (SELECT account <inner FROM>)` with outer and inner clause shapes drawn uniformly from all 12 x 12 (inner optionally with an expression) '
-                'must return the outer rows filtered by the stand-alone inner result, and CLOSE before OPEN inside the nested FROM is rejected; non-trivial = combination '
+                'must return the outer rows filtered by the stand-alone inner result, and CLOSE before OPEN inside the nested FROM is rejected; '
+                'shell: `.run name` vs the statement with the CLOSE date predicted by the model typed into a fresh shell, and shell SESSIONS '
+                '(`.run NAME` / `.run *` on query directives dated inside the span, then typed SELECT / BALANCES / JOURNAL statements in the same '
+                'shell, each equal to the API result on a fresh connection rendered by the shell renderer); non-trivial = combination '
                 'whose result contains generated (S/T/C) entries',
         'samples': [c['stmt'] for c in results[0]['cases'][40:44]] + [render(ledgers[3])[:700]],
         'traces_validated_against_impl': n_cases,
@@ -1132,6 +1238,8 @@ def replay(rec):
                                  for p in t['posts']]} for t in ledger['txns']]
     ledger['extra'] = [tuple(x) for x in ledger['extra']]
     law = rec['law']
+    if law == 'shell-session':
+        return not work_shell_session((0, ledger, 0))[0]
     if law.startswith('shell'):
         recs = work_shell((0, ledger))
         return not check_shell(recs, shell_model(recs))
